@@ -163,6 +163,8 @@ def diagnose(case, work, env, timeout_ms):
     err = p.stderr.decode("utf-8", "replace")
     if p.returncode == 0:
         return "not reproduced alone"
+    if p.returncode == 97:
+        return "not reproduced alone (timeout)"
     for pat in (r"thread '[^']*' \(?\d*\)? ?has overflowed its stack", r"has overflowed its stack",
                 r"memory allocation of \d+ bytes failed", r"fatal runtime error: [^\n]*"):
         m = re.search(pat, err)
@@ -177,7 +179,8 @@ def is_resource(case, v):
     if not case.get("huge") or v["pass"]:
         return False
     w = v["why"]
-    return w == "process hang" or w.startswith("process crash(rc=-9)") or "memory allocation of" in w
+    return (w == "process hang" or w.startswith("process crash(rc=-9)") or "memory allocation of" in w
+            or "not reproduced alone" in w)
 
 
 def crashy(v):
